@@ -159,11 +159,14 @@ pub fn gen_op(r: &mut Rng, kind: u64, colors: &[ScadColor]) -> ScadOp {
         19 => ScadOp::Scale { v: pt3(r) },
         20 => ScadOp::Resize { newsize: pt3(r), auto: r.coin(), auto_is_vec: r.coin(), autovec: (r.coin(), r.coin(), r.coin()), convexity: u(r) },
         21 => ScadOp::Mirror { v: pt3(r) },
-        22 => match r.below(3) {
-                0 => ScadOp::Color { rgba: Some(Pt4::new(num_f(r), num_f(r), num_f(r), num_f(r))), color: None, hex: None, alpha: None },
-                1 => ScadOp::Color { rgba: None, color: Some(*r.pick(colors)), hex: None, alpha: { let v = num_f(r); opt(r, v) } },
-                _ => ScadOp::Color { rgba: None, color: None, hex: Some(format!("#{:06x}", r.below(1 << 24))), alpha: None } },
-        23 => if r.coin() { ScadOp::Offset { r: Some(num_f(r)), delta: None, chamfer: r.coin() } } else { ScadOp::Offset { r: None, delta: Some(num_f(r)), chamfer: r.coin() } },
+        // every combination of the optional fields, also the ones no macro builds (several set at once, none set)
+        22 => { let rgba = if r.below(3) == 0 { Some(Pt4::new(num_f(r), num_f(r), num_f(r), num_f(r))) } else { None };
+                let color = if r.below(2) == 0 { Some(*r.pick(colors)) } else { None };
+                let hex = if r.below(2) == 0 { Some(format!("#{:06x}", r.below(1 << 24))) } else { None };
+                let alpha = { let v = num_f(r); opt(r, v) };
+                ScadOp::Color { rgba, color, hex, alpha } },
+        23 => { let rr = { let v = num_f(r); opt(r, v) }; let delta = { let v = num_f(r); opt(r, v) };
+                ScadOp::Offset { r: rr, delta, chamfer: r.coin() } },
         _ => ScadOp::Minkowski { convexity: u(r) },
     }
 }
